@@ -370,6 +370,15 @@ def r9_event_driven(repo, rep, name):
                 continue
             nh += 1
             rep.analysed(h)
+            # the time the handler records is the time of the event it was queued for: its first parameter is never rebound
+            # (a `for time in ...` loop does that; a comprehension has a scope of its own and does not)
+            tpar = h.params[0]
+            rebinds = [x for x in own_nodes(h.node) if isinstance(x, ast.Name) and isinstance(x.ctx, ast.Store) and x.id == tpar
+                       and not _in_comprehension(h.node, x)]
+            rep.ob("R9.C04", not rebinds, "%s: the event time `%s` is not rebound inside the handler" % (h.name, tpar), func=h,
+                   node=rebinds[0] if rebinds else h.node, construct="%s: stores to %s: %d" % (h.name, tpar, len(rebinds)),
+                   detail="" if not rebinds else "`%s` is assigned inside the handler (a loop target or a temporary of the same name): "
+                   "what is appended to the time series afterwards is not the time of the event" % tpar)
             hs = {letter: inv[sn] for letter, sn in series.items()}
             check_event_block(rep, h, h.node.body, hs, inv[tser], h.params[0], inv.get("status", "status"),
                               "%s handler %s" % (name, h.name),
@@ -417,6 +426,14 @@ def r9_event_driven(repo, rep, name):
                    detail="" if late else "series %s is sliced (copied) before the event loop runs: the events write the original list, "
                    "the returned copy holds nothing but the start row" % n)
     rep.floor("R9.C04", "%s event loops (while Q: Q.pop_and_run())" % name, len(runs), 1)
+
+
+def _in_comprehension(root, node):
+    for c in ast.walk(root):
+        if isinstance(c, (ast.ListComp, ast.SetComp, ast.DictComp, ast.GeneratorExp, ast.Lambda)):
+            if any(x is node for x in ast.walk(c)):
+                return True
+    return False
 
 
 def r9_generic(repo, rep, name):
